@@ -104,6 +104,39 @@ reg('C16', 'E2',
     'InferenceSetup.cost_function and compared with scipy.stats log-densities (1e-10) or required to be rejected (non-finite / -inf).',
     'Trusted: scipy.stats densities as the meaning of the family names. Values whose density underflows a double are not compared.', '4 C16')
 
+reg('C02', 'E2',
+    'bounded-exhaustive enumeration of expression trees on every parser route vs a plain recursive evaluator',
+    'Expression trees over the supported operator signature and an identifier pool with underscores, digits, the leading-underscore '
+    'spelling and the sympy-clashing single letters are enumerated exhaustively at depth 0-1 (full leaf set, two species/parameter splits), '
+    'depth 2 (reduced leaves) and by capped systematic nesting for depths 3-5; each is rendered minimally and fully parenthesised and run '
+    'through parse_expression, a general propensity, parse_general_expression, an assignment rule and a growth law at 36 points, and '
+    'compared with an independent evaluator on the finite domain; unknown names and unsupported functions must be rejected on every route.',
+    'Trusted: vf/ref/expr.py (60-line evaluator). Depths 3-5 are a structured subset (exhaustive=false). Over-rejection is not a violation.',
+    '4 C02')
+reg('C03', 'E2',
+    'bounded-exhaustive enumeration of reaction lists x species declaration orders on the real Model vs stoichiometry by counting',
+    'Every single reaction with reactant and product sequences of length 0..4 over three species, every propensity x delay type x delayed '
+    'side lists, ordered pairs/triples from a 12-reaction menu, each under all 9 declaration styles, is built on the real Model; the update '
+    'arrays must equal products minus reactants counted with multiplicity and the derivative must equal (S+Sd).rate at 10 (state, time) '
+    'points; every parameter position left without a value must make initialisation / interface construction / simulation fail.',
+    'Trusted: counting stoichiometry and the closed-form rates (C01). A rate that names a not-yet-declared species is counted as rejected.',
+    '4 C03')
+reg('C04', 'E2',
+    'exhaustive enumeration of a finite model family x time grids on the real integrator vs matrix exponential / DOP853',
+    'Every affine network from <= 3 reactions of a 9-reaction menu x rate and initial alphabets (strides stated in the evidence) against the '
+    'augmented matrix exponential, and 13 non-linear families (orders 2-4 with repeats, Hill, rational, explicitly time-dependent, delayed) '
+    'against DOP853 at rtol 1e-12, on uniform, geometric and two-point grids through both entry points: first row exact, every row within '
+    '1e-5*(1+|x|).',
+    'This is exhaustive over the stated finite family only: "all positive parameters" is represented by the alphabets, which is weaker '
+    'than the property. Trusted: scipy expm / solve_ivp.', '4 C04')
+reg('C18', 'E2',
+    'exhaustive enumeration of networks x states x parameters x schemes on the real analysis functions vs reference stencils and derivatives',
+    'For 13 smooth networks x state alphabet^n x parameter vectors x every named parameter x the four difference schemes the reported '
+    'Jacobian / sensitivity is compared (1) with the same stencil applied to the reference rate equations (1e-7) and (2) with the analytic '
+    'derivative within the scheme\'s truncation bound; the parameter dictionary must be unchanged after every call, failing ones included.',
+    'Trusted: reference rate equations (C01/C03); numerical differentiation of the reference for the analytic value and the bound. '
+    'Alphabets stand for the open domains.', '4 C18')
+
 def hook_commits():
     try:
         out = subprocess.run(['git', '-C', '/repo', 'log', '--format=%h %s'], stdout=subprocess.PIPE).stdout.decode()
